@@ -161,6 +161,61 @@ theorem C04_one_byte_altered (pre post : Bytes) (x y : UInt8) (hxy : x ≠ y) :
     rwa [Nat.mod_eq_of_lt l1, Nat.mod_eq_of_lt l2] at this
   exact crc32_one_byte pre post x y hxy (UInt32.toNat_inj.mp h3).symm
 
+/-- whatever changes the checksum of the covered bytes (field intact) is seen by the comparison the decoder makes -/
+theorem crc_change_detected (body body' : Bytes) (h : crc32 body' ≠ crc32 body) :
+    wrapI 4 ((crc32 body').toNat : Int) ≠ decI (crcField body) := by
+  rw [crc_roundtrip]
+  intro h1
+  have h2 := decI_injective4 _ _ (crcField_len _) (crcField_len _) h1
+  unfold crcField at h2
+  have h3 : (crc32 body').toNat = (crc32 body).toNat := by
+    have := congrArg unbe h2
+    rw [unbe_be, unbe_be] at this
+    have l1 : (crc32 body').toNat < 256 ^ 4 := by have := (crc32 body').toNat_lt; simpa using this
+    have l2 : (crc32 body).toNat < 256 ^ 4 := by have := (crc32 body).toNat_lt; simpa using this
+    rwa [Nat.mod_eq_of_lt l1, Nat.mod_eq_of_lt l2] at this
+  exact h (UInt32.toNat_inj.mp h3)
+
+/-- **every burst of at most 32 bits inside the covered bytes is detected** (field intact): `es` is the error pattern,
+    XORed onto the bytes `xs` that follow `pre`; `Burst32 es` says it spans at most 32 consecutive bits in the order the
+    checksum consumes them, starting at any bit of any byte (`burst32_of_bits`); messages of any length -/
+theorem C04_burst32_altered (pre xs post es : Bytes) (hlen : es.length = xs.length) (hb : Burst32 es) (hne : ∃ e ∈ es, e ≠ 0) :
+    wrapI 4 ((crc32 (pre ++ xorOnto xs es ++ post)).toNat : Int) ≠ decI (crcField (pre ++ xs ++ post)) :=
+  crc_change_detected _ _ (crc32_burst pre xs post es hlen hb hne)
+
+/-- … and the message is rejected when validation is on -/
+theorem C04_burst32_rejected (pre xs post es : Bytes) (hlen : es.length = xs.length) (hb : Burst32 es) (hne : ∃ e ∈ es, e ≠ 0) :
+    protoMsg true (crcField (pre ++ xs ++ post) ++ (pre ++ xorOnto xs es ++ post)) = .error (.kafka 2) :=
+  C04_reject_message _ _ (crcField_len _) (C04_burst32_altered pre xs post es hlen hb hne)
+
+/-- the bit-level reading: any non-zero pattern `B` of at most 32 bits, shifted to start at bit `a` of the first of five
+    covered bytes, is rejected -/
+theorem C04_burst32_bits_rejected (pre xs post : Bytes) (B a : Nat) (hB : B < 2 ^ 32) (hB0 : 0 < B) (ha : a < 8) (hx : xs.length = 5) :
+    protoMsg true (crcField (pre ++ xs ++ post) ++ (pre ++ xorOnto xs (nle 5 (B * 2 ^ a)) ++ post)) = .error (.kafka 2) := by
+  apply C04_burst32_rejected pre xs post _ (by rw [nle_length, hx]) (burst32_of_bits B a hB ha)
+  -- a non-zero number has a non-zero byte
+  apply Classical.byContradiction
+  intro hall
+  have hz : ∀ e ∈ nle 5 (B * 2 ^ a), e = 0 := by
+    intro e he
+    apply Classical.byContradiction
+    intro hne; exact hall ⟨e, he, hne⟩
+  have h0 : leNat (nle 5 (B * 2 ^ a)) = 0 := by
+    have : ∀ (l : Bytes), (∀ e ∈ l, e = 0) → leNat l = 0 := by
+      intro l; induction l with
+      | nil => intro _; rfl
+      | cons x r ih => intro h; simp only [leNat]; rw [h x (by simp), ih (fun e he => h e (by simp [he]))]; rfl
+    exact this _ hz
+  rw [leNat_nle] at h0
+  have hlt : B * 2 ^ a < 256 ^ 5 := by
+    have h1 : B * 2 ^ a < 2 ^ 32 * 2 ^ a := Nat.mul_lt_mul_of_pos_right hB (Nat.two_pow_pos a)
+    have h2 : 2 ^ 32 * 2 ^ a ≤ 2 ^ 32 * 2 ^ 8 := Nat.mul_le_mul_left _ (Nat.pow_le_pow_right (by decide) (by omega))
+    have h3 : (2:Nat) ^ 32 * 2 ^ 8 = 256 ^ 5 := by decide
+    omega
+  rw [Nat.mod_eq_of_lt hlt] at h0
+  have : 0 < B * 2 ^ a := Nat.mul_pos hB0 (Nat.two_pow_pos a)
+  omega
+
 /-- put together: a message with one covered byte altered is rejected when validation is on -/
 theorem C04_single_byte_rejected (pre post : Bytes) (x y : UInt8) (hxy : x ≠ y) :
     protoMsg true (crcField (pre ++ x :: post) ++ (pre ++ y :: post)) = .error (.kafka 2) :=
@@ -169,5 +224,8 @@ theorem C04_single_byte_rejected (pre post : Bytes) (x y : UInt8) (hxy : x ≠ y
 /-! ### non-vacuity -/
 example : (crcField [0, 0, 255, 255, 255, 255, 0, 0, 0, 1, 97]).length = 4 := crcField_len _
 example : (1 : UInt8) ≠ 3 := by decide
+-- a 32-bit burst starting at bit 3 of a byte: first and last bit set, over five bytes
+example : Burst32 (nle 5 ((2 ^ 31 + 1) * 2 ^ 3)) := burst32_of_bits _ 3 (by decide) (by decide)
+example : nle 5 ((2 ^ 31 + 1) * 2 ^ 3) = [8, 0, 0, 0, 4] := by decide
 
 end Kafka.Props.C04
